@@ -7,6 +7,7 @@ import (
 	"go/token"
 	"go/types"
 	"regexp"
+	"sort"
 	"strconv"
 	"strings"
 
@@ -355,8 +356,8 @@ func (e *Env) evalIndex(n *ast.IndexExpr) Term {
 	case *types.Map:
 		m := e.eval(n.X)
 		k := e.eval(n.Index)
-		ks, vs := e.u().sortOf(tt.Key()), e.u().sortOf(tt.Elem())
-		d, v, _ := e.st.mapFams(ks, vs)
+		vs := e.u().sortOf(tt.Elem())
+		d, v, _ := e.st.mapFamsT(tt)
 		return ite(and(neq(m, intLit(0)), e.st.readFam(e.cur, d, m, k)), e.st.readFam(e.cur, v, m, k), e.u().zero(vs))
 	case *types.Basic:
 		if isStringType(t) {
@@ -430,7 +431,7 @@ func (e *Env) evalCall(n *ast.CallExpr) Term {
 				return app(SInt, "gstr.len", a)
 			case SInt: // map
 				mt := e.typeOf(n.Args[0]).Underlying().(*types.Map)
-				_, _, l := e.st.mapFams(e.u().sortOf(mt.Key()), e.u().sortOf(mt.Elem()))
+				_, _, l := e.st.mapFamsT(mt)
 				return ite(eq(a, intLit(0)), intLit(0), e.st.readFam(e.cur, l, a))
 			}
 		case "cap":
@@ -490,7 +491,7 @@ func (e *Env) evalCall(n *ast.CallExpr) Term {
 		return lt(e.idOf(v, e.typeOf(n.Args[0]), n), e.st.alloc)
 	case "dom":
 		mt := e.typeOf(n.Args[0]).Underlying().(*types.Map)
-		d, _, _ := e.st.mapFams(e.u().sortOf(mt.Key()), e.u().sortOf(mt.Elem()))
+		d, _, _ := e.st.mapFamsT(mt)
 		m := e.eval(n.Args[0])
 		return and(neq(m, intLit(0)), e.st.readFam(e.cur, d, m, e.eval(n.Args[1])))
 	case "typeis":
@@ -505,7 +506,25 @@ func (e *Env) evalCall(n *ast.CallExpr) Term {
 	case "strof":
 		return e.st.stringOfBytes(e.cur, e.eval(n.Args[0]))
 	case "same":
-		return eq(e.eval(n.Args[0]), e.eval(n.Args[1]))
+		var a, b Term
+		switch {
+		case isNilExpr(n.Args[1]):
+			a = e.eval(n.Args[0])
+			e.st.sc.ensureSort(a.Sort)
+			b = e.u().zero(a.Sort)
+		case isNilExpr(n.Args[0]):
+			b = e.eval(n.Args[1])
+			e.st.sc.ensureSort(b.Sort)
+			a = e.u().zero(b.Sort)
+		default:
+			a, b = e.eval(n.Args[0]), e.eval(n.Args[1])
+			if a.Sort == SIface && b.Sort != SIface {
+				b = e.st.makeIface(b, e.typeOf(n.Args[1]))
+			} else if b.Sort == SIface && a.Sort != SIface {
+				a = e.st.makeIface(a, e.typeOf(n.Args[0]))
+			}
+		}
+		return eq(a, b)
 	case "visited":
 		v, ok := e.ghost["$visited"]
 		if !ok {
@@ -524,6 +543,8 @@ func (e *Env) evalCall(n *ast.CallExpr) Term {
 			args = append(args, e.eval(a))
 		}
 		return e.st.ex.applyPureClosure(e, n, bv, args)
+	case "freshid":
+		return ge(e.eval(n.Args[0]), e.allocLo)
 	case "itercount":
 		v, ok := e.ghost["$itercount"]
 		if !ok {
@@ -574,6 +595,22 @@ func (e *Env) callPure(n *ast.CallExpr, pf *PureFunc) Term {
 			ne.vars[nm.Name] = BVal{Val: v}
 			i++
 		}
+	}
+	if pf.Virtual {
+		var sorts []Sort
+		var args []Term
+		for _, fld := range decl.Type.Params.List {
+			for _, nm := range fld.Names {
+				v := ne.vars[nm.Name].Val
+				sorts = append(sorts, v.Sort)
+				args = append(args, v)
+			}
+		}
+		if len(sorts) == 0 || sorts[0] != SIface {
+			e.fail(n, "virtual function %s: first parameter must be an interface value", pf.Name)
+		}
+		rs := e.u().sortOf(fsig.Results().At(0).Type())
+		return app(rs, e.st.methodSymbol(e, pf.Name, sorts, rs), args...)
 	}
 	if pf.Abstract {
 		sig := e.info.TypeOf(n.Fun).(*types.Signature)
@@ -716,6 +753,8 @@ type LocSet struct {
 	Ranged bool
 	All   bool // whole family for that object (maps)
 	Region bool // every object of the family (type-level footprint)
+	Ghost  bool // a ghost variable
+	Guard  *Term // the location is part of the footprint only when the guard holds
 	Desc  string
 }
 
@@ -736,6 +775,9 @@ func (e *Env) evalLocSet(a ast.Expr) []LocSet {
 	case *ast.ParenExpr:
 		return e.evalLocSet(n.X)
 	case *ast.SelectorExpr:
+		if v, ok := e.info.Uses[n.Sel].(*types.Var); ok && v.Pkg() != nil && v.Parent() == v.Pkg().Scope() {
+			return e.globalLocSets(v)
+		}
 		sel := e.info.Selections[n]
 		if sel == nil || sel.Kind() != types.FieldVal {
 			e.fail(n, "bad location")
@@ -789,10 +831,32 @@ func (e *Env) evalLocSet(a ast.Expr) []LocSet {
 			if id, ok := ix.X.(*ast.Ident); ok && id.Name == "fields" {
 				return e.regionOf(e.typeOf(ix.Index), n)
 			}
+			if id, ok := ix.X.(*ast.Ident); ok && id.Name == "maps" {
+				mt, ok := e.typeOf(ix.Index).Underlying().(*types.Map)
+				if !ok {
+					e.fail(n, "maps[T](): T must be a map type")
+				}
+				d, v, l := e.st.mapFamsT(mt)
+				ds := "maps[" + mt.String() + "]"
+				return []LocSet{{Fam: d.Name, Region: true, Obj: intLit(0), Desc: ds}, {Fam: v.Name, Region: true, Obj: intLit(0), Desc: ds}, {Fam: l.Name, Region: true, Obj: intLit(0), Desc: ds}}
+			}
 		}
 		switch name {
 		case "nothing":
 			return nil
+		case "ite":
+			// conditional footprint
+			c := e.eval(n.Args[0])
+			var out []LocSet
+			for _, ls := range e.evalLocSet(n.Args[1]) {
+				ls.Guard = andGuard(ls.Guard, c)
+				out = append(out, ls)
+			}
+			for _, ls := range e.evalLocSet(n.Args[2]) {
+				ls.Guard = andGuard(ls.Guard, not(c))
+				out = append(out, ls)
+			}
+			return out
 		case "cells":
 			t := e.typeOf(n.Args[0])
 			stp, ok := t.Underlying().(*types.Slice)
@@ -812,7 +876,7 @@ func (e *Env) evalLocSet(a ast.Expr) []LocSet {
 				e.fail(n, "mapcells() needs a map")
 			}
 			m := e.eval(n.Args[0])
-			d, v, l := e.st.mapFams(e.u().sortOf(mt.Key()), e.u().sortOf(mt.Elem()))
+			d, v, l := e.st.mapFamsT(mt)
 			ds := types.ExprString(n)
 			return []LocSet{{Fam: d.Name, Obj: m, All: true, Desc: ds}, {Fam: v.Name, Obj: m, All: true, Desc: ds}, {Fam: l.Name, Obj: m, All: true, Desc: ds}}
 		case "old":
@@ -857,8 +921,12 @@ func (e *Env) evalLocSet(a ast.Expr) []LocSet {
 			return []LocSet{{Fam: l.Fam, Obj: l.Obj, Desc: n.Name}}
 		}
 		if v, ok := e.info.Uses[n].(*types.Var); ok && v.Parent() == v.Pkg().Scope() {
-			l := e.st.globalLoc(v)
-			return []LocSet{{Fam: l.Fam, Obj: l.Obj, Desc: n.Name}}
+			return e.globalLocSets(v)
+		}
+	}
+	if se, ok := a.(*ast.SelectorExpr); ok {
+		if v, ok := e.info.Uses[se.Sel].(*types.Var); ok && v.Parent() == v.Pkg().Scope() {
+			return e.globalLocSets(v)
 		}
 	}
 	e.fail(a, "unsupported location expression %s", types.ExprString(a))
@@ -866,9 +934,12 @@ func (e *Env) evalLocSet(a ast.Expr) []LocSet {
 }
 
 // pureMethod: x.M(args) inside a contract. For a concrete receiver type with a
-// `method` definition the definition is expanded; for an interface receiver an
-// uninterpreted function M.<name> over the interface value is used, linked to
-// every `method` definition of that name by an axiom over the boxed value.
+// `method` definition the definition is expanded in the snapshot in use. For an
+// interface receiver the value is M.<name>@<versions>(x, args): one function
+// symbol per combination of versions of the heap families the definitions
+// read, linked by one axiom per `method` definition (selected by the dynamic
+// type) and, for dynamic types without a definition, to the abstract family
+// X.<name> that stands for foreign implementations.
 func (st *State) pureMethod(e *Env, n *ast.CallExpr, f *ast.SelectorExpr, recvT types.Type, m *types.Func) Term {
 	prog := st.ex.prog
 	recv := e.eval(f.X)
@@ -888,23 +959,105 @@ func (st *State) pureMethod(e *Env, n *ast.CallExpr, f *ast.SelectorExpr, recvT 
 		e.fail(n, "pure interface method %s must have exactly one result", m.Name())
 	}
 	rs := st.u().sortOf(sig.Results().At(0).Type())
-	name := "M." + m.Name()
 	sorts := []Sort{SIface}
 	for _, a := range args {
 		sorts = append(sorts, a.Sort)
 	}
-	if !st.sc.declared["fun:"+name] {
-		st.sc.declFun(name, sorts, rs)
-		// link axioms for concrete definitions
-		for _, k := range sortedKeys(prog.Pures) {
-			pf := prog.Pures[k]
-			if pf.Method != m.Name() || pf.RecvType == "" {
+	return app(rs, st.methodSymbol(e, m.Name(), sorts, rs), append([]Term{recv}, args...)...)
+}
+
+func (st *State) methodSymbol(e *Env, name string, sorts []Sort, rs Sort) string {
+	prog := st.ex.prog
+	rel := prog.relevantFams(st.ex, name, sorts, rs)
+	var vers []string
+	for _, fam := range rel {
+		sym := st.symIn(e.cur, fam)
+		vers = append(vers, sym[strings.LastIndex(sym, "@")+1:])
+	}
+	sym := "M." + name
+	if len(vers) > 0 {
+		sym += "@" + strings.Join(vers, ".")
+	}
+	if st.sc.declared["fun:"+sym] {
+		return sym
+	}
+	st.sc.declFun(sym, sorts, rs)
+	var known []Term
+	st.sc.nfresh++
+	iv := Term{fmt.Sprintf("i!l%d", st.sc.nfresh), SIface}
+	for _, k := range sortedKeys(prog.Pures) {
+		pf := prog.Pures[k]
+		if pf.Method != name || pf.RecvType == "" {
+			continue
+		}
+		rt := prog.recvTypeOf(pf)
+		if rt == nil {
+			continue
+		}
+		tid := st.u().typeID(rt)
+		known = append(known, eq(ifType(iv), intLit(int64(tid))))
+		st.emitMethodLink(e, pf, sym, rs, rt, tid)
+	}
+	// foreign implementations
+	xf := st.family("X."+name, sorts, rs)
+	binders := []string{fmt.Sprintf("(%s Iface)", iv.S)}
+	callArgs := []Term{iv}
+	for k, s := range sorts[1:] {
+		st.sc.nfresh++
+		a := Term{fmt.Sprintf("a!l%d", st.sc.nfresh), s}
+		binders = append(binders, fmt.Sprintf("(%s %s)", a.S, s))
+		callArgs = append(callArgs, a)
+		_ = k
+	}
+	lhs := app(rs, sym, callArgs...)
+	st.sc.emit("(assert (forall (%s) (! (=> (not %s) (= %s %s)) :pattern (%s))))", strings.Join(binders, " "), or(known...).S, lhs.S, app(rs, st.symIn(e.cur, xf.Name), callArgs...).S, lhs.S)
+	return sym
+}
+
+// relevantFams: the heap families on which the value of pure method `name` depends
+func (p *Program) relevantFams(ex *Exec, name string, sorts []Sort, rs Sort) []string {
+	if p.relCache == nil {
+		p.relCache = map[string][]string{}
+		p.relBusy = map[string]bool{}
+	}
+	if r, ok := p.relCache[name]; ok {
+		return r
+	}
+	if p.relBusy[name] {
+		return nil
+	}
+	p.relBusy[name] = true
+	sc := &State{ex: ex, sc: newScript(p.Universe), vals: map[ssa.Value]Term{}, locs: map[ssa.Value]Loc{}, tuples: map[ssa.Value][]Term{}, iters: map[ssa.Value]*MapIter{}, heap: map[string]string{}, fams: map[string]*Family{}, ghost: map[string]Term{}, sliceBase: map[string]sliceBaseInfo{}}
+	sc.entry = map[string]string{}
+	sc.alloc0 = sc.sc.fresh("alloc0", SInt)
+	sc.alloc = sc.alloc0
+	se := &Env{st: sc, vars: map[string]BVal{}, cur: sc.heap, old: sc.heap, allocLo: sc.alloc0}
+	func() {
+		defer func() { recover() }()
+		for _, k := range sortedKeys(p.Pures) {
+			pf := p.Pures[k]
+			if pf.Method != name || pf.RecvType == "" {
 				continue
 			}
-			st.emitMethodLink(e, pf, name, rs)
+			rt := p.recvTypeOf(pf)
+			if rt == nil {
+				continue
+			}
+			sc.emitMethodLink(se, pf, "M.scratch", rs, rt, 1)
 		}
+	}()
+	set := map[string]bool{"X." + name: true}
+	for fam := range sc.fams {
+		set[fam] = true
 	}
-	return app(rs, name, append([]Term{recv}, args...)...)
+	var out []string
+	for fam := range set {
+		out = append(out, fam)
+	}
+	sort.Strings(out)
+	delete(p.relBusy, name)
+	p.relCache[name] = out
+	return out
 }
 
 func (p *Program) methodDef(recvT types.Type, name string) *PureFunc {
@@ -943,50 +1096,27 @@ func (st *State) expandMethodDef(e *Env, pf *PureFunc, args []Term) Term {
 	return ne.eval(ret)
 }
 
-func (st *State) emitMethodLink(e *Env, pf *PureFunc, fname string, rs Sort) {
-	rt := st.ex.prog.recvTypeOf(pf)
-	if rt == nil {
-		return
-	}
-	if _, isPtr := rt.Underlying().(*types.Pointer); isPtr {
-		// heap-dependent definitions are linked per heap version elsewhere
-		return
-	}
+func (st *State) emitMethodLink(e *Env, pf *PureFunc, fname string, rs Sort, rt types.Type, tid int) {
 	s := st.u().sortOf(rt)
 	st.sc.ensureSort(s)
-	tid := st.u().typeID(rt)
 	st.sc.nfresh++
-	x := Term{fmt.Sprintf("x!l%d", st.sc.nfresh), s}
-	var boxed Term
-	if s == SInt {
-		boxed = x
-	} else {
-		b, _ := st.boxFns(s)
-		boxed = app(SInt, b, x)
-	}
-	binders := []string{fmt.Sprintf("(%s %s)", x.S, s)}
-	args := []Term{x}
-	callArgs := []Term{mkIface(intLit(int64(tid)), boxed)}
-	np := 0
-	for _, fld := range pf.Decl.Type.Params.List {
-		for range fld.Names {
-			np++
-		}
-	}
-	if np > 1 {
-		sig := st.ex.prog.Pkgs[pf.PkgPath].Types.Scope().Lookup(pf.FnName).Type().(*types.Signature)
-		for k := 1; k < sig.Params().Len(); k++ {
-			ps := st.u().sortOf(sig.Params().At(k).Type())
-			st.sc.nfresh++
-			pv := Term{fmt.Sprintf("a!l%d", st.sc.nfresh), ps}
-			binders = append(binders, fmt.Sprintf("(%s %s)", pv.S, ps))
-			args = append(args, pv)
-			callArgs = append(callArgs, pv)
-		}
+	iv := Term{fmt.Sprintf("i!k%d", st.sc.nfresh), SIface}
+	recv := st.unbox(ifPayload(iv), rt)
+	binders := []string{fmt.Sprintf("(%s Iface)", iv.S)}
+	args := []Term{recv}
+	callArgs := []Term{iv}
+	sig := st.ex.prog.Pkgs[pf.PkgPath].Types.Scope().Lookup(pf.FnName).Type().(*types.Signature)
+	for k := 1; k < sig.Params().Len(); k++ {
+		ps := st.u().sortOf(sig.Params().At(k).Type())
+		st.sc.nfresh++
+		pv := Term{fmt.Sprintf("a!k%d", st.sc.nfresh), ps}
+		binders = append(binders, fmt.Sprintf("(%s %s)", pv.S, ps))
+		args = append(args, pv)
+		callArgs = append(callArgs, pv)
 	}
 	body := st.expandMethodDef(e, pf, args)
 	lhs := app(rs, fname, callArgs...)
-	st.sc.emit("(assert (forall (%s) (! (= %s %s) :pattern (%s))))", strings.Join(binders, " "), lhs.S, body.S, lhs.S)
+	st.sc.emit("(assert (forall (%s) (! (=> (= (i-type %s) %d) (= %s %s)) :pattern (%s))))", strings.Join(binders, " "), iv.S, tid, lhs.S, body.S, lhs.S)
 }
 
 func (e *Env) callRec(n *ast.CallExpr, pf *PureFunc) Term {
@@ -1039,4 +1169,28 @@ func (e *Env) regionOf(t types.Type, n ast.Node) []LocSet {
 		e.fail(n, "fields[%s](): not a struct or interface type", t)
 	}
 	return out
+}
+
+func isGhostName(n string) bool { return strings.HasPrefix(n, "Ghost") || strings.HasPrefix(n, "ghost") }
+
+func (e *Env) globalLocSets(v *types.Var) []LocSet {
+	l := e.st.globalLoc(v)
+	g := isGhostName(v.Name())
+	if l.Kind == LObj {
+		si := e.u().structInfoOf(l.Type)
+		var out []LocSet
+		for i := range si.Fields {
+			out = append(out, LocSet{Fam: e.st.fieldFam(si, i).Name, Obj: l.Obj, Desc: v.Name(), Ghost: g})
+		}
+		return out
+	}
+	return []LocSet{{Fam: l.Fam, Obj: l.Obj, Desc: v.Name(), Ghost: g}}
+}
+
+func andGuard(g *Term, c Term) *Term {
+	if g == nil {
+		return &c
+	}
+	t := and(*g, c)
+	return &t
 }
